@@ -993,9 +993,11 @@ class ShortIntegrationFrameComputer(LinearFilterBankFrameComputer):
         # y_buf[1, 1, :] contains the accumulators of the second half of
         # the frame (the second block) multiplied with the second half
         # of the window
-        coeffs[:] = self._y_buf[0, 0, :] + self._y_buf[1, 1, :]
+        # floor and take the log in float64, before the cast to a possibly narrower result dtype
+        vals = self._y_buf[0, 0, :] + self._y_buf[1, 1, :]
         if self._log:
-            coeffs[:] = np.log(np.maximum(coeffs, config.LOG_FLOOR_VALUE))
+            vals = np.log(np.maximum(vals, config.LOG_FLOOR_VALUE))
+        coeffs[:] = vals
         self._y_buf[:-1] = self._y_buf[1:]
         self._y_buf[-1] = 0
         self._y_rem -= self._frame_shift
